@@ -7,6 +7,7 @@ impl  : the extension module built from interrogate -python-native + interrogate
 spec  : the overload whose parameter categories equal the argument categories; value fidelity of conversions; TypeError/OverflowError; object counts
 """
 import os
+import re
 import subprocess
 import sys
 import sysconfig
@@ -50,6 +51,64 @@ def build_module(b, d, hdr, impl):
     if p.returncode != 0:
         return 'g++: ' + '; '.join(l for l in p.stdout.splitlines() if 'error' in l)[:600]
     return None
+
+
+def truth_remaps(lib, c):
+    """function name -> [(normalised parameter text as interrogate prints it, const?, min args, max args)] for every overloaded / defaulted published member of class c"""
+    n = c['name']
+
+    def norm(cat, cls, i, wide=False):
+        if cat == 'int':
+            return ('long long int a%d' if wide else 'int a%d') % i
+        return {'float': 'double a%d' % i, 'str': 'std::string const &a%d' % i}.get(cat) or '%s const &a%d' % (cls, i)
+    out = {}
+    for s_ in c['ovsets']:
+        out[s_['name']] = [(', '.join(norm(cat, cls, i, lib.mixed and j % 2 == 1) for i, (cat, cls) in enumerate(o['vec'])), False, len(o['vec']), len(o['vec'])) for j, o in enumerate(s_['overloads'])]
+    for d_ in c['dflts']:
+        ps = ['int r%d' % i for i in range(d_['nreq'])] + ['int d%d' % i for i in range(len(d_['defaults']))]
+        out[d_['name']] = [(', '.join(ps), False, d_['nreq'], d_['nreq'] + len(d_['defaults']))]
+    out['scale_' + n] = [('int factor', False, 1, 1), ('int factor, int offset', False, 2, 2)]
+    out['mut_' + n] = [('%s &other' % n, False, 1, 1), ('int x', False, 1, 1)]
+    out['which_' + n] = [('void', False, 0, 0), ('void', True, 0, 0)]
+    out['tagc_' + n] = [('int x', True, 1, 1), ('int x', False, 1, 1)]
+    out['dk_' + n] = [('int a, int b', False, 1, 2), ('std::string const &s', False, 1, 1)]
+    out['sdk_' + n] = [('std::string const &s', False, 1, 1), ('int a, int b, int c', False, 1, 3)]
+    return out
+
+
+def switch_of(code, cls, fname):
+    """the arity table of the generated wrapper: [(sorted case labels or None, set of (parameter text, const?))], or None when the wrapper is not found"""
+    m = re.search(r'^static PyObject \*Dtool_%s_%s_\d+\(PyObject \*[^\n]*\{\n(.*?)^\}\n' % (cls, fname), code, re.S | re.M)
+    if not m:
+        return None
+    body = m.group(1)
+
+    def protos(text):
+        out = set()
+        for pm in re.finditer(r'^\s*// (?:1-|-2 )[^\n]*?::%s\((.*)\)( const)?\s*$' % re.escape(fname), text, re.M):
+            out.add((re.sub(r' = [^,)]*', '', pm.group(1)), bool(pm.group(2))))
+        return out
+    if 'switch (parameter_count)' not in body:
+        return [(None, protos(body))]
+    groups = []
+    sw = body.split('switch (parameter_count)', 1)[1]
+    cur = None
+    chunk = []
+    for line in sw.split('\n'):
+        cm = re.match(r'\s*case (\d+):\s*$', line)
+        if cm or re.match(r'\s*default:', line) or (cur is not None and re.match(r'  \}', line) and not line.startswith('   ')):
+            if cm and cur is not None and not ''.join(chunk).strip():
+                cur.append(int(cm.group(1)))         # consecutive labels of one entry
+                continue
+            if cur is not None:
+                groups.append((sorted(cur), protos('\n'.join(chunk))))
+            cur = [int(cm.group(1))] if cm else None
+            chunk = []
+            if not cm:
+                break
+        elif cur is not None:
+            chunk.append(line)
+    return groups
 
 
 HARNESS = r'''
@@ -98,6 +157,24 @@ def main():
             ck.count()
             ck.spec_failure('build:' + err.split(':')[0], 'the python-native module does not build: %s' % err, dict(rp0, kind='spec'))
             continue
+        # ---- the arity table of every overloaded wrapper: the generated switch against map_sets + collapse_default_remaps of the model (proved exact)
+        code = open(os.path.join(d, 'w.cxx')).read()
+        for c in lib.classes:
+            for fname, remaps in sorted(truth_remaps(lib, c).items()):
+                ck.count()
+                ck.dist('arity-tables')
+                got = switch_of(code, c['name'], fname)
+                ml = vlib.run_model('C02', 'table', ['(' + ' '.join('(%d %d %d)' % (i, r[2], r[3]) for i, r in enumerate(remaps)) + ')'])[0]
+                want = []
+                for ent in ml.split(';'):
+                    rng_, ids_ = ent.split(':')
+                    lo, hi = [int(x) for x in rng_.split('-')]
+                    want.append((list(range(lo, hi + 1)), {(remaps[int(i)][0], remaps[int(i)][1]) for i in ids_.split(',')}))
+                if got is not None and len(got) == 1 and got[0][0] is None and len(want) == 1:
+                    got = [(want[0][0], got[0][1])]            # a single entry is written without a switch
+                if got != want:
+                    ck.violation('corr_C02_arity_table', '%s::%s: the generated wrapper dispatches on the argument count as %s, the model of map_sets/collapse_default_remaps says %s' % (c['name'], fname, got, want),
+                                 dict(rp0, kind='correspondence', theorems=['c02_arity_table_exact'], function=fname), nofail=True)
         T = [HARNESS % d]
         ids = {c['name']: i for i, c in enumerate(lib.classes)}
         depths = ' '.join('(%d %d)' % (ids[c['name']], c['depth']) for c in lib.classes)
@@ -155,7 +232,16 @@ def main():
             T.append('expect("%s unchanged after rejected const uses", lambda: k.get_v_%s(), %d)' % (n, n, v))
             T.append('expect("%s non-const reference parameter", lambda: (k.mut_%s(o2), o2.get_v_%s()), (1, 1005))' % (n, n, n))
             T.append('expect("%s sibling overload", lambda: k.mut_%s(4), 2)' % (n, n))
+            # const / non-const pairs: C++ selects by the constness of the object
+            T.append('expect("%s const/non-const pair on a non-const object", lambda: (k.which_%s(), k.tagc_%s(1)), (1, 11))' % (n, n, n))
+            T.append('expect("%s const/non-const pair on a const object", lambda: (cv.which_%s(), cv.tagc_%s(1)), (2, 21))' % (n, n, n))
             T.append('del cv')
+            # a defaulted overload that shares its lowest arity with a sibling
+            T.append('expect("%s defaulted overload, default used", lambda: k.dk_%s(5), 51)' % (n, n))
+            T.append('expect("%s defaulted overload, all given", lambda: (k.dk_%s(5, 2), k.dk_%s(5, b=3)), (52, 53))' % (n, n, n))
+            T.append('expect("%s sibling of a defaulted overload at its lowest arity", lambda: (k.dk_%s("abc"), k.dk_%s(s="ab")), (1003, 1002))' % (n, n, n))
+            T.append('expect("%s static defaulted overload", lambda: (M.%s.sdk_%s(1), M.%s.sdk_%s(1, 5), M.%s.sdk_%s(1, 5, 7)), (112, 152, 157))' % (n, n, n, n, n, n, n))
+            T.append('expect("%s static sibling of a defaulted overload", lambda: M.%s.sdk_%s("abcd"), 2004)' % (n, n, n))
             # keyword arguments on a set overloaded by arity
             T.append('expect("%s one keyword argument", lambda: k.scale_%s(factor=3), 30)' % (n, n))
             T.append('expect("%s two keyword arguments", lambda: k.scale_%s(offset=4, factor=3), 34)' % (n, n))
@@ -290,10 +376,12 @@ def main():
                       'methods, operators + == [], enums, returned copies and returned self pointers) are wrapped with -python-native + interrogate_module, compiled into an extension module and '
                       'imported: names and camelCase aliases, exact-category overload calls (expected: the matching overload; also compared with the extracted dispatcher), defaults and keyword '
                       'arguments, integer boundaries of 5 widths (OverflowError beyond), TypeError for wrong types/counts with state unchanged, live-object counts after dropping copies and '
-                      'borrowed pointers, zero live objects at exit. Non-trivial = library whose every call agreed')
+                      'borrowed pointers, zero live objects at exit; const/non-const pairs on const and non-const objects; a defaulted overload sharing its lowest arity with a sibling. The switch on the '
+                      'argument count of every overloaded wrapper is read back from the generated code and compared with the extracted map_sets/collapse_default_remaps (proved exact). '
+                      'Non-trivial = library whose every call agreed')
     ck.assumptions += ['CPython %s is the interpreter; the module is built against shim register_type.h/dconfig.h kept in harness/shims' % sys.version.split()[0],
                        'no sanitizer inside the interpreter process: memory errors are seen as crashes or wrong live-object counts only',
-                       'coercion constructors, const/non-const pairs, item assignment, bytes/None arguments for pointers are not generated']
+                       'coercion constructors, item assignment, bytes/None arguments for pointers are not generated']
     ck.finish()
 
 
